@@ -497,16 +497,55 @@ func exploreScenarioOn(env *core.Env, st *schedStats, check string, sc sched.Sce
 	judge func(w *core.Worker, ex *sched.Exec) (sig, detail string), firstDir, nWorkers int) {
 	ctl := &sched.Controller{Bin: env.Verif, Snapshots: snapshots}
 	dirs := schedWorkerDirs(env, firstDir+nWorkers)[firstDir:]
+	var reported atomic.Bool
+	// judgeAndReport: one complete execution through the judge; a failing one is confirmed by replaying its schedule
+	judgeAndReport := func(ex *sched.Exec) {
+		wk := workerFor(env, ex)
+		sig, detail := judge(wk, ex)
+		releaseWorker(wk)
+		if sig == "" || env.ViolationSeen(sig) {
+			return
+		}
+		confirmMu <- struct{}{}
+		defer func() { <-confirmMu }()
+		if env.ViolationSeen(sig) {
+			return
+		}
+		if note, ok := confirmSchedule(env, ctl, sc, ex, sig, judge); ok {
+			reported.Store(true)
+			env.Violation(sig, fmt.Sprintf("scenario %s; schedule: %s; %s%s", sc.Name, ex.Schedule(), detail, note), mkSchedReplay(check, sc, ex, detail))
+		}
+	}
+	// The commands did not repeat their own steps under an identical choice sequence. Before calling that a harness
+	// fault, look at what they do: the default schedule a few more times, each run judged like any other.
+	probe := func() bool {
+		for k := 0; k < 12 && !reported.Load(); k++ {
+			if re, err := ctl.Run(filepath.Join(env.Scratch, "schedprobe"), sc, nil, nil); err == nil {
+				judgeAndReport(re)
+			}
+		}
+		return reported.Load()
+	}
 	// determinism proof: the default schedule twice
 	a, err := ctl.Run(dirs[0], sc, nil, nil)
 	if err != nil {
 		env.HarnessError("scenario %s: %v", sc.Name, err)
 	}
 	b, err := ctl.Run(dirs[0], sc, a.Choices, a.Steps)
-	if err != nil {
-		env.HarnessError("scenario %s not deterministic under replay: %v", sc.Name, err)
-	}
-	if a.Schedule() != b.Schedule() {
+	if err != nil || a.Schedule() != b.Schedule() {
+		judgeAndReport(a)
+		if probe() {
+			env.Logf("scenario %s: not explored - the commands do not repeat their steps under one schedule (%v); a violation of this scenario is reported", sc.Name, err)
+			st.mu.Lock()
+			st.Scenarios++
+			st.Exhaustive = false
+			st.PerScenario[sc.Name] = map[string]interface{}{"processes": len(sc.Procs), "executions": 2, "bound_completed": -1, "note": "steps differ under one schedule; violation reported"}
+			st.mu.Unlock()
+			return
+		}
+		if err != nil {
+			env.HarnessError("scenario %s not deterministic under replay: %v", sc.Name, err)
+		}
 		env.HarnessError("scenario %s: same choices, different point sequences:\n%s\n%s", sc.Name, a.Schedule(), b.Schedule())
 	}
 	var execs int64
@@ -524,38 +563,15 @@ func exploreScenarioOn(env *core.Env, st *schedStats, check string, sc sched.Sce
 			if bound > 0 && ex.Preempts < bound {
 				return // already judged at a lower bound
 			}
-			wk := workerFor(env, ex)
-			sig, detail := judge(wk, ex)
-			releaseWorker(wk)
-			if sig == "" {
-				return
-			}
-			if env.ViolationSeen(sig) {
-				return
-			}
-			// confirm: the same schedule must fail the same way 5 times
-			confirmMu <- struct{}{}
-			defer func() { <-confirmMu }()
-			if env.ViolationSeen(sig) {
-				return
-			}
-			for k := 0; k < 5; k++ {
-				re, err := ctl.Run(filepath.Join(env.Scratch, "schedconfirm"), sc, ex.Choices, ex.Steps) // serialised by confirmMu
-				if err != nil {
-					env.HarnessError("replay of a failing schedule diverged: %v", err)
-				}
-				wk := workerFor(env, re)
-				s2, _ := judge(wk, re)
-				releaseWorker(wk)
-				if s2 != sig {
-					env.Logf("UNCONFIRMED schedule (fails %q then %q): %s", sig, s2, ex.Schedule())
-					unconfirmed.Add(1)
-					return
-				}
-			}
-			env.Violation(sig, fmt.Sprintf("scenario %s; schedule: %s; %s", sc.Name, ex.Schedule(), detail), mkSchedReplay(check, sc, ex, detail))
+			judgeAndReport(ex)
 		}
 		x.Explore()
+		if x.Err != nil && strings.Contains(x.Err.Error(), "schedule diverged") {
+			if probe() {
+				env.Logf("scenario %s bound %d: exploration stopped (%v) - the commands do not repeat their steps under one schedule; a violation of this scenario is reported", sc.Name, bound, x.Err)
+				break
+			}
+		}
 		if x.Err != nil {
 			env.HarnessError("scenario %s bound %d: %v", sc.Name, bound, x.Err)
 		}
@@ -570,32 +586,7 @@ func exploreScenarioOn(env *core.Env, st *schedStats, check string, sc sched.Sce
 	if (env.Thorough() || os.Getenv("VERIF_UNBOUNDED") != "") && len(sc.Procs) == 2 && env.TimeLeft() {
 		x := &sched.Explorer{Ctl: ctl, Scenario: sc, Workers: nWorkers, Dirs: dirs, Deadline: env.Deadline}
 		x.Check = func(ex *sched.Exec) {
-			wk := workerFor(env, ex)
-			sig, detail := judge(wk, ex)
-			releaseWorker(wk)
-			if sig == "" || env.ViolationSeen(sig) {
-				return
-			}
-			confirmMu <- struct{}{}
-			defer func() { <-confirmMu }()
-			if env.ViolationSeen(sig) {
-				return
-			}
-			for k := 0; k < 5; k++ {
-				re, err := ctl.Run(filepath.Join(env.Scratch, "schedconfirm"), sc, ex.Choices, ex.Steps)
-				if err != nil {
-					env.HarnessError("replay of a failing schedule diverged: %v", err)
-				}
-				wk := workerFor(env, re)
-				s2, _ := judge(wk, re)
-				releaseWorker(wk)
-				if s2 != sig {
-					env.Logf("UNCONFIRMED schedule (fails %q then %q): %s", sig, s2, ex.Schedule())
-					unconfirmed.Add(1)
-					return
-				}
-			}
-			env.Violation(sig, fmt.Sprintf("scenario %s; schedule: %s; %s", sc.Name, ex.Schedule(), detail), mkSchedReplay(check, sc, ex, detail))
+			judgeAndReport(ex)
 		}
 		x.ExploreUnbounded(30000)
 		if x.Err != nil {
@@ -694,3 +685,42 @@ func init() {
 
 // schedJudges builds the judge of a check for a scenario (used by replay).
 var schedJudges = map[string]func(env *core.Env, sc sched.Scenario) func(w *core.Worker, ex *sched.Exec) (string, string){}
+
+// confirmSchedule replays a failing schedule. Normally the same schedule must fail the same way five times in a row.
+// If a replay takes different steps under the identical choice sequence, the commands themselves are not a function of
+// the log and the schedule (nothing in the harness can cause that: the points are the commands' own); the violating
+// execution was still observed on the real code, so it is confirmed when five replays that do follow the schedule fail
+// the same way (at most 60 attempts), and the report says so. A replay that follows the schedule and does not fail the
+// same way leaves the candidate unconfirmed, as before.
+func confirmSchedule(env *core.Env, ctl *sched.Controller, sc sched.Scenario, ex *sched.Exec, sig string,
+	judge func(w *core.Worker, ex *sched.Exec) (sig, detail string)) (note string, ok bool) {
+	same, strayed := 0, 0
+	for k := 0; k < 60 && same < 5; k++ {
+		re, err := ctl.Run(filepath.Join(env.Scratch, "schedconfirm"), sc, ex.Choices, ex.Steps) // serialised by confirmMu
+		if err != nil {
+			strayed++
+			continue
+		}
+		wk := workerFor(env, re)
+		s2, _ := judge(wk, re)
+		releaseWorker(wk)
+		if s2 != sig {
+			env.Logf("UNCONFIRMED schedule (fails %q then %q): %s", sig, s2, ex.Schedule())
+			unconfirmed.Add(1)
+			return "", false
+		}
+		same++
+	}
+	if same < 5 {
+		if same == 0 {
+			env.HarnessError("replay of a failing schedule diverged %d times out of %d (scenario %s, %s)", strayed, strayed, sc.Name, sig)
+		}
+		env.Logf("UNCONFIRMED schedule (%q reproduced %d times, %d replays took other steps): %s", sig, same, strayed, ex.Schedule())
+		unconfirmed.Add(1)
+		return "", false
+	}
+	if strayed > 0 {
+		note = fmt.Sprintf(" [%d further replays of this schedule took different steps: what the commands do depends on something besides the log and the schedule]", strayed)
+	}
+	return note, true
+}
